@@ -77,3 +77,22 @@ pub mod hashmap;
 /// S-vec (arrayvec::ArrayVec)
 #[path = "arrayvec.rs"]
 pub mod arrayvec;
+
+/// S-btree (std::collections::BTreeMap); `btree_map::{BTreeMap, Entry}` paths resolve too
+#[path = "btree.rs"]
+pub mod btree_map;
+
+/// S-ctr (AES-128-CTR header masking)
+#[path = "ctr.rs"]
+pub mod ctr;
+
+/// S-zero: `zeroize::Zeroize` (volatile writes + inline-asm barrier, which Kani cannot translate) is a
+/// no-op; wiping key material is not a subject of any property.
+pub mod zero {
+    pub trait Zeroize {
+        fn zeroize(&mut self);
+    }
+    impl<T: ?Sized> Zeroize for T {
+        fn zeroize(&mut self) {}
+    }
+}
